@@ -156,7 +156,7 @@ def shrink(ctx, trees, rng):
 
 
 def run(ctx):
-    n = 300 if ctx.tier == "quick" else 6000
+    n = ctx.n(300, 6000)
     rng = core.Rng(ctx.seed)
     cases = [gen_case(rng.fork("case%d" % i)) for i in range(n)]
     im, mo = run_batch(ctx, cases, rng)
